@@ -177,25 +177,7 @@ func checkC02(P *Prog, r *Result) {
 	// the wrappers build the issue from c.Test and the tested value
 	for _, w := range P.predicateWrappers() {
 		r.sawFunc(fname(w.closure))
-		okArgs := false
-		eachInstr(w.closure, func(_ *ssa.BasicBlock, _ int, in ssa.Instruction) {
-			ci := callOf(in)
-			if ci == nil || ci.static == nil || ci.static.Name() != "IssueFromTest" {
-				return
-			}
-			args := ci.args()
-			if len(args) != 3 {
-				return
-			}
-			_, f := loadOfField(cv(args[1]))
-			fromCtx := false
-			if f != nil && sameField(f, R.FTest) {
-				fromCtx = true
-			}
-			if fromCtx && cv(args[2]) == ssa.Value(w.closure.Params[0]) && cvi(args[0]) == ssa.Value(w.closure.Params[1]) {
-				okArgs = true
-			}
-		})
+		okArgs := w.issueArgsOK
 		c := fname(w.fn) + "#issue-args"
 		if okArgs {
 			r.ok("C02/current-test", c, P.pos(w.closure.Pos()), "issue built by IssueFromTest(ctx.Test, val) on the same context")
